@@ -2,7 +2,8 @@ import P2.Model.TxLts
 import P2.Drv.Util
 /-
 C10 model driver.  Request: `ctl STEP*` or `free STEP*`; a STEP is `y` (let the runtime run the spawned tasks)
-or `T:STMT` for task number T with STMT one of
+`yb` / `ya` (verif hook: the clean-up task of a dropped permit is parked before it takes the transaction /
+after its rollback but before `drop(permit)`) or `T:STMT` for task number T with STMT one of
   B        begin (answers `blk` while the permit is taken or others are queued before it; repeat the step later)
   wN / bN  one INSERT inside the transaction (bN: violates a deferred constraint → the commit will fail)
   r        dirty read: number of rows visible inside the transaction
@@ -17,6 +18,8 @@ open P2.TxLts P2.Drv
 
 inductive Stmt where
   | y
+  | yb   -- clean-up task parked before it takes the transaction: no transition yet
+  | ya   -- clean-up task has rolled back, parked before `drop(permit)`: `rbTake`
   | begin (t : Nat) (cancel : Option Nat)
   | write (t n : Nat) (bad : Bool) (cancel : Option Nat)
   | read (t : Nat)
@@ -32,7 +35,7 @@ def splitOn1 (s : String) (c : Char) : String × Option String :=
   | _ => (s, some "?")
 
 def parseStmt (tok : String) : Option Stmt :=
-  if tok = "y" then some .y else
+  if tok = "y" then some .y else if tok = "yb" then some .yb else if tok = "ya" then some .ya else
   match tok.splitOn ":" with
   | [ts, rest] => do
     let t ← ts.toNat?
@@ -78,6 +81,13 @@ def isInTx : PC → Bool
 
 /-- One harness step: new state and observation. -/
 def stepStmt (s : St) : Stmt → St × String
+  | .yb => (s, "ok")
+  | .ya =>
+    match s.spawn with
+    | .pending => match stepFn s .rbTake with
+      | some s' => (s', "ok")
+      | none => (s, "stuck")
+    | _ => (s, "ok")
   | .y =>
     match s.spawn with
     | .pending => match acts s [.rbTake, .rbRelease] with
